@@ -24,97 +24,7 @@ func checkC06(c *Ctx) {
 	const lib = "pkg/station/lib"
 	// ---- C06.1
 	r.Rule("C06.1", "the guard returns the single checked resolution result, dominated by the policy tests", 6)
-	if f := c.fn("C06.1", lib, "RegConfig", "ParseOrResolveBlocklisted"); f != nil {
-		// a wrapper that hands its own receiver and input to one helper which does the resolving: decide the helper
-		isResolver := func(n string) bool {
-			return strings.HasPrefix(n, "net.Resolve") || strings.HasPrefix(n, "net.Lookup") || strings.HasPrefix(n, "(*net.Resolver).")
-		}
-		if len(callsIn(f, func(n string, _ *ssa.CallCommon) bool { return isResolver(n) })) == 0 && len(f.Params) == 2 {
-			var inner *ssa.Function
-			for _, ci := range callsIn(f, func(string, *ssa.CallCommon) bool { return true }) {
-				cal := ci.Common().StaticCallee()
-				if cal == nil || cal.Blocks == nil || !isRepoPath(fnPkgPath(cal)) || len(ci.Common().Args) != 2 {
-					continue
-				}
-				if ci.Common().Args[0] == ssa.Value(f.Params[0]) && ci.Common().Args[1] == ssa.Value(f.Params[1]) &&
-					len(callsIn(cal, func(n string, _ *ssa.CallCommon) bool { return isResolver(n) })) > 0 {
-					inner = cal
-				}
-			}
-			if inner != nil {
-				r.Note("C06.1: %s delegates to %s; the helper is decided (and the wrapper's own effects by C06.5)", fnName(f), fnName(inner))
-				f = inner
-			}
-		}
-		var resolvers []*ssa.Call
-		eachInstr(f, func(in ssa.Instruction) {
-			if call, ok := in.(*ssa.Call); ok {
-				n := calleeName(&call.Call)
-				if strings.HasPrefix(n, "net.Resolve") || strings.HasPrefix(n, "net.Lookup") || strings.HasPrefix(n, "(*net.Resolver).") {
-					resolvers = append(resolvers, call)
-				}
-			}
-		})
-		if len(resolvers) != 1 {
-			r.Bad("C06.1", fmt.Sprintf("ParseOrResolveBlocklisted: %d resolver calls", len(resolvers)), f.Pos(), fnName(f),
-				"the guard must resolve a host name exactly once: with a second resolution the address that is checked and the address that is returned (and later dialed) can differ (DNS rebinding)")
-		} else {
-			res := resolvers[0]
-			addr := pathOf(res) + "#0"
-			host := pathOf(res.Call.Args[1])
-			r.OK("C06.1", "ParseOrResolveBlocklisted: single resolution of "+firstN(host, 40), res.Pos(), "1 resolver call")
-			nRet := 0
-			eachInstr(f, func(in ssa.Instruction) {
-				ret, ok := in.(*ssa.Return)
-				if !ok || len(ret.Results) != 2 {
-					return
-				}
-				if cv, isC := constOf(ret.Results[0]); isC && cv.ExactString() == `""` {
-					return
-				}
-				nRet++
-				rp := pathOf(ret.Results[0])
-				port := ""
-				okForm := false
-				if jc, ok := ret.Results[0].(*ssa.Call); ok && calleeName(&jc.Call) == "net.JoinHostPort" {
-					okForm = pathOf(jc.Call.Args[0]) == addr+".String()"
-					port = pathOf(jc.Call.Args[1])
-				}
-				r.Check(okForm, "C06.1", "ParseOrResolveBlocklisted: returns JoinHostPort(<resolved addr>.String(), port)", ret.Pos(), fnName(f), firstN(rp, 100),
-					"the guard returns "+firstN(rp, 80)+" instead of the literal of the one address it resolved and checked: the station later dials (and re-resolves) something that was never checked")
-				gAddr := guarded(f, ret, Atom{"c.isBlocklistedCovertAddr(" + addr + ".IP)", false})
-				r.Check(gAddr, "C06.1", "ParseOrResolveBlocklisted: success only if the resolved address is not blocklisted", ret.Pos(), fnName(f), "dominated by !isBlocklistedCovertAddr(addr.IP)",
-					"a non-empty result is returned without the subnet policy test on the resolved address (or with the test on another value)")
-				gDom := guarded(f, ret, Atom{"c.isBlocklistedCovertDomain(" + host + ")", false})
-				r.Check(gDom, "C06.1", "ParseOrResolveBlocklisted: success only if the host does not match a blocklisted domain pattern", ret.Pos(), fnName(f), "dominated by !isBlocklistedCovertDomain(host)",
-					"a non-empty result is returned without the domain-pattern test on the host that is resolved")
-				gPort := port != "" && guardedM(f, ret, func(cnd string, pol bool) bool {
-					return pol && strings.HasPrefix(cnd, "(nil == strconv.ParseUint("+port+", 10, 16)#1)")
-				})
-				r.Check(gPort, "C06.1", "ParseOrResolveBlocklisted: success only with a valid 16-bit port", ret.Pos(), fnName(f), "dominated by ParseUint(port,10,16) err == nil", "the returned port was not validated as a 16-bit number")
-				gNil := guarded(f, ret, Atom{"(" + orderEq(addr, "nil") + ")", false}) && guarded(f, ret, Atom{"(" + orderEq(pathOf(res)+"#1", "nil") + ")", true})
-				r.Check(gNil, "C06.1", "ParseOrResolveBlocklisted: success only if the resolution succeeded", ret.Pos(), fnName(f), "err == nil && addr != nil", "a result is built although the resolution failed")
-				// ... and produced an address: the resolver answers an empty host ("":port, "[]:port") with an IPAddr
-				// whose IP is nil, which no subnet list contains and whose literal is "" - the result ":port" is dialed
-				// as the local host
-				ipPath := addr + ".IP"
-				gIP := guardedM(f, ret, func(cnd string, pol bool) bool {
-					switch cnd {
-					case "(" + orderEq("nil", ipPath) + ")", "(0 == len(" + ipPath + "))", "(len(" + ipPath + ") < 1)", "(" + orderEq(`""`, host) + ")", "(0 == len(" + host + "))", "(len(" + host + ") < 1)":
-						return !pol
-					case "(0 < len(" + ipPath + "))", "(0 < len(" + host + "))":
-						return pol
-					}
-					return false
-				})
-				r.Check(gIP, "C06.1", "ParseOrResolveBlocklisted: success only if the resolution produced an address", ret.Pos(), fnName(f), "dominated by addr.IP != nil (or host != \"\")",
-					"an empty host (\":80\", \"[]:80\") resolves without error to an address with a nil IP: no subnet list contains it, its literal is empty, and the guard returns \":80\", which net.Dial connects to the local host - a loopback destination is admitted although loopback is blocklisted")
-			})
-			if nRet == 0 {
-				r.Unk("C06.1", "ParseOrResolveBlocklisted: non-empty return", f.Pos(), fnName(f), "none found")
-			}
-		}
-	}
+	checkCovertGuard(c, "C06.1", false)
 	if f := c.fn("C06.1", lib, "RegConfig", "isBlocklistedCovertAddr"); f != nil {
 		// under enableCovertAllowlist: true unless an allowlist net contains it; else: true iff a blocklist net contains it
 		type retInfo struct {
@@ -489,4 +399,111 @@ func onlyCalledFrom(f *ssa.Function, name string, depth int) bool {
 		}
 	}
 	return true
+}
+
+// checkCovertGuard decides the covert guard ParseOrResolveBlocklisted; with listsOnly only "every admitted covert passed
+// both configured lists" is emitted (C19.7: a parsed list that is not consulted for some class of hosts is not enforced).
+func checkCovertGuard(c *Ctx, rule string, listsOnly bool) {
+	r := c.R
+	if f := c.fn(rule, "pkg/station/lib", "RegConfig", "ParseOrResolveBlocklisted"); f != nil {
+		// a wrapper that hands its own receiver and input to one helper which does the resolving: decide the helper
+		isResolver := func(n string) bool {
+			return strings.HasPrefix(n, "net.Resolve") || strings.HasPrefix(n, "net.Lookup") || strings.HasPrefix(n, "(*net.Resolver).")
+		}
+		if len(callsIn(f, func(n string, _ *ssa.CallCommon) bool { return isResolver(n) })) == 0 && len(f.Params) == 2 {
+			var inner *ssa.Function
+			for _, ci := range callsIn(f, func(string, *ssa.CallCommon) bool { return true }) {
+				cal := ci.Common().StaticCallee()
+				if cal == nil || cal.Blocks == nil || !isRepoPath(fnPkgPath(cal)) || len(ci.Common().Args) != 2 {
+					continue
+				}
+				if ci.Common().Args[0] == ssa.Value(f.Params[0]) && ci.Common().Args[1] == ssa.Value(f.Params[1]) &&
+					len(callsIn(cal, func(n string, _ *ssa.CallCommon) bool { return isResolver(n) })) > 0 {
+					inner = cal
+				}
+			}
+			if inner != nil {
+				r.Note("C06.1: %s delegates to %s; the helper is decided (and the wrapper's own effects by C06.5)", fnName(f), fnName(inner))
+				f = inner
+			}
+		}
+		var resolvers []*ssa.Call
+		eachInstr(f, func(in ssa.Instruction) {
+			if call, ok := in.(*ssa.Call); ok {
+				n := calleeName(&call.Call)
+				if strings.HasPrefix(n, "net.Resolve") || strings.HasPrefix(n, "net.Lookup") || strings.HasPrefix(n, "(*net.Resolver).") {
+					resolvers = append(resolvers, call)
+				}
+			}
+		})
+		if len(resolvers) != 1 {
+			if listsOnly {
+				r.Unk(rule, "ParseOrResolveBlocklisted: resolved host", f.Pos(), fnName(f), fmt.Sprintf("%d resolver calls: the host the lists are applied to is not determined (see C06.1)", len(resolvers)))
+				return
+			}
+			r.Bad(rule, fmt.Sprintf("ParseOrResolveBlocklisted: %d resolver calls", len(resolvers)), f.Pos(), fnName(f),
+				"the guard must resolve a host name exactly once: with a second resolution the address that is checked and the address that is returned (and later dialed) can differ (DNS rebinding)")
+		} else {
+			res := resolvers[0]
+			addr := pathOf(res) + "#0"
+			host := pathOf(res.Call.Args[1])
+			if !listsOnly {
+				r.OK(rule, "ParseOrResolveBlocklisted: single resolution of "+firstN(host, 40), res.Pos(), "1 resolver call")
+			}
+			nRet := 0
+			eachInstr(f, func(in ssa.Instruction) {
+				ret, ok := in.(*ssa.Return)
+				if !ok || len(ret.Results) != 2 {
+					return
+				}
+				if cv, isC := constOf(ret.Results[0]); isC && cv.ExactString() == `""` {
+					return
+				}
+				nRet++
+				rp := pathOf(ret.Results[0])
+				port := ""
+				okForm := false
+				if jc, ok := ret.Results[0].(*ssa.Call); ok && calleeName(&jc.Call) == "net.JoinHostPort" {
+					okForm = pathOf(jc.Call.Args[0]) == addr+".String()"
+					port = pathOf(jc.Call.Args[1])
+				}
+				if !listsOnly {
+					r.Check(okForm, rule, "ParseOrResolveBlocklisted: returns JoinHostPort(<resolved addr>.String(), port)", ret.Pos(), fnName(f), firstN(rp, 100),
+						"the guard returns "+firstN(rp, 80)+" instead of the literal of the one address it resolved and checked: the station later dials (and re-resolves) something that was never checked")
+				}
+				gAddr := guarded(f, ret, Atom{"c.isBlocklistedCovertAddr(" + addr + ".IP)", false})
+				r.Check(gAddr, rule, "ParseOrResolveBlocklisted: success only if the resolved address is not blocklisted", ret.Pos(), fnName(f), "dominated by !isBlocklistedCovertAddr(addr.IP)",
+					"a non-empty result is returned without the subnet policy test on the resolved address (or with the test on another value)")
+				gDom := guarded(f, ret, Atom{"c.isBlocklistedCovertDomain(" + host + ")", false})
+				r.Check(gDom, rule, "ParseOrResolveBlocklisted: success only if the host does not match a blocklisted domain pattern", ret.Pos(), fnName(f), "dominated by !isBlocklistedCovertDomain(host)",
+					"a non-empty result is returned without the domain-pattern test on the host that is resolved")
+				if !listsOnly {
+					gPort := port != "" && guardedM(f, ret, func(cnd string, pol bool) bool {
+						return pol && strings.HasPrefix(cnd, "(nil == strconv.ParseUint("+port+", 10, 16)#1)")
+					})
+					r.Check(gPort, rule, "ParseOrResolveBlocklisted: success only with a valid 16-bit port", ret.Pos(), fnName(f), "dominated by ParseUint(port,10,16) err == nil", "the returned port was not validated as a 16-bit number")
+					gNil := guarded(f, ret, Atom{"(" + orderEq(addr, "nil") + ")", false}) && guarded(f, ret, Atom{"(" + orderEq(pathOf(res)+"#1", "nil") + ")", true})
+					r.Check(gNil, rule, "ParseOrResolveBlocklisted: success only if the resolution succeeded", ret.Pos(), fnName(f), "err == nil && addr != nil", "a result is built although the resolution failed")
+					// ... and produced an address: the resolver answers an empty host ("":port, "[]:port") with an IPAddr
+					// whose IP is nil, which no subnet list contains and whose literal is "" - the result ":port" is dialed
+					// as the local host
+					ipPath := addr + ".IP"
+					gIP := guardedM(f, ret, func(cnd string, pol bool) bool {
+						switch cnd {
+						case "(" + orderEq("nil", ipPath) + ")", "(0 == len(" + ipPath + "))", "(len(" + ipPath + ") < 1)", "(" + orderEq(`""`, host) + ")", "(0 == len(" + host + "))", "(len(" + host + ") < 1)":
+							return !pol
+						case "(0 < len(" + ipPath + "))", "(0 < len(" + host + "))":
+							return pol
+						}
+						return false
+					})
+					r.Check(gIP, rule, "ParseOrResolveBlocklisted: success only if the resolution produced an address", ret.Pos(), fnName(f), "dominated by addr.IP != nil (or host != \"\")",
+						"an empty host (\":80\", \"[]:80\") resolves without error to an address with a nil IP: no subnet list contains it, its literal is empty, and the guard returns \":80\", which net.Dial connects to the local host - a loopback destination is admitted although loopback is blocklisted")
+				}
+			})
+			if nRet == 0 {
+				r.Unk(rule, "ParseOrResolveBlocklisted: non-empty return", f.Pos(), fnName(f), "none found")
+			}
+		}
+	}
 }
